@@ -336,8 +336,78 @@ fn select_run(e: &'static Engine, workers: usize, second: Top, send_first: bool)
     e.note(&format!("token={} other_bottom={}", t, snap[o].1));
 }
 
+static LEAVING: std::sync::atomic::AtomicBool = std::sync::atomic::AtomicBool::new(false);
+static LEFT_WITH_ARMS: std::sync::atomic::AtomicBool = std::sync::atomic::AtomicBool::new(false);
+
+/// lives in the owner's frame, outside the cqueue scope: dropped when that frame is left, normally or by an unwind
+struct FrameEnd;
+impl Drop for FrameEnd {
+    fn drop(&mut self) {
+        if ACTIVE.load(Ordering::SeqCst) != 0 {
+            LEFT_WITH_ARMS.store(true, Ordering::SeqCst);
+        }
+    }
+}
+
+/// the owner (a coroutine) is cancelled while it drains the cqueue at the end of the scope (cancellation is disabled there):
+/// the scope is still only left when every arm has ended; `select`: the same with select!
+fn drain_cancelled(e: &'static Engine, workers: usize, select: bool) {
+    rt_init(workers);
+    e.begin();
+    let o = go!(move || {
+        let _f = FrameEnd;
+        if select {
+            let _ = select!(
+                _ = coroutine::yield_now() => {
+                    LEAVING.store(true, Ordering::SeqCst);
+                },
+                _ = {
+                    ACTIVE.fetch_add(1, Ordering::SeqCst);
+                    let _g = ActiveGuard(1);
+                    coroutine::sleep(Duration::from_millis(5));
+                } => {}
+            );
+        } else {
+            cqueue::scope(|cq| {
+                go!(cq, 0, |es| {
+                    ACTIVE.fetch_add(1, Ordering::SeqCst);
+                    let _g = ActiveGuard(0);
+                    es.send(0);
+                });
+                go!(cq, 1, |es| {
+                    ACTIVE.fetch_add(1, Ordering::SeqCst);
+                    let _g = ActiveGuard(1);
+                    coroutine::sleep(Duration::from_millis(5));
+                    es.send(0);
+                });
+                let _ = cq.poll(None);
+                LEAVING.store(true, Ordering::SeqCst);
+            });
+        }
+    });
+    e.wait_flag(&LEAVING);
+    unsafe { o.coroutine().cancel() };
+    match o.join() {
+        Ok(()) => {}
+        Err(p) => {
+            if p.downcast_ref::<generator::Error>().is_none() {
+                e.fail("unexpected_panic", &format!("the owner ended with a panic that is not Cancel: {:?}", e.panics().last()));
+            }
+        }
+    }
+    if LEFT_WITH_ARMS.load(Ordering::SeqCst) {
+        e.fail("arm_still_running", "the owner's frame was left while a select coroutine was still executing");
+    }
+    e.quiesce();
+    e.note("ok");
+}
+
 pub fn build(quick: bool) -> Vec<Scenario> {
     let mut v = vec![];
+    for w in [1usize, 2] {
+        v.push(Scenario::new("C16", "drain_cancelled", format!("cqueue.owner_cancelled_in_final_drain.w{}", w), Arc::new(move |e| drain_cancelled(e, w, false))));
+        v.push(Scenario::new("C16", "drain_cancelled", format!("select.owner_cancelled_in_final_drain.w{}", w), Arc::new(move |e| drain_cancelled(e, w, true))));
+    }
     for w in [1usize, 2] {
         v.push(Scenario::new("C16", "poll", format!("poll.co.ready_yield.w{}", w), Arc::new(move |e| poll_run(e, w, true, &[Top::Ready, Top::Yield], 1, 0, false))));
         v.push(Scenario::new("C16", "poll", format!("poll.co.recv_yield.w{}", w), Arc::new(move |e| poll_run(e, w, true, &[Top::Recv, Top::Yield], 1, 0, false))));
